@@ -119,7 +119,104 @@ func EmitSameBodyFacts(emit func(op, res string)) {
 	})
 }
 
+// lockDiscipline classifies every X.Lock()/X.RLock() statement of a function: "deferred" (the next statement is
+// `defer X.Unlock()`), "explicit-nocall" (released by an explicit Unlock with no call or index expression in between,
+// so nothing can panic while it is held) or "explicit-across-calls" (a panic in between leaves it locked for ever).
+func lockDiscipline(p *pkgAST, fn string) string {
+	fd := p.funcs[fn]
+	if fd == nil || fd.Body == nil {
+		return "missing"
+	}
+	lockCall := func(st ast.Stmt) (recv string, kind string) {
+		es, ok := st.(*ast.ExprStmt)
+		if !ok {
+			return "", ""
+		}
+		c, ok := es.X.(*ast.CallExpr)
+		if !ok {
+			return "", ""
+		}
+		sel, ok := c.Fun.(*ast.SelectorExpr)
+		if !ok {
+			return "", ""
+		}
+		var b bytes.Buffer
+		_ = printer.Fprint(&b, p.fset, sel.X)
+		return b.String(), sel.Sel.Name
+	}
+	var res []string
+	var walk func(list []ast.Stmt)
+	walk = func(list []ast.Stmt) {
+		for i, st := range list {
+			recv, kind := lockCall(st)
+			if kind == "Lock" || kind == "RLock" {
+				cls := "explicit-nocall"
+				if i+1 < len(list) {
+					if d, ok := list[i+1].(*ast.DeferStmt); ok {
+						var b bytes.Buffer
+						_ = printer.Fprint(&b, p.fset, d.Call.Fun)
+						if strings.HasPrefix(b.String(), recv+".") && strings.HasSuffix(b.String(), "nlock") {
+							cls = "deferred"
+						}
+					}
+				}
+				if cls != "deferred" {
+					// anything that can panic between this Lock and the last Unlock of the same mutex in the function?
+					last := token.NoPos
+					ast.Inspect(fd, func(n ast.Node) bool {
+						if es, ok := n.(*ast.ExprStmt); ok {
+							if r2, k2 := lockCall(es); r2 == recv && (k2 == "Unlock" || k2 == "RUnlock") && es.Pos() > st.Pos() {
+								last = es.Pos()
+							}
+						}
+						return true
+					})
+					ast.Inspect(fd, func(n ast.Node) bool {
+						if n == nil || n.Pos() <= st.End() || (last != token.NoPos && n.Pos() >= last) {
+							return true
+						}
+						switch x := n.(type) {
+						case *ast.CallExpr:
+							if r2, k2 := lockCall(&ast.ExprStmt{X: x}); r2 == recv && (k2 == "Unlock" || k2 == "RUnlock") {
+								return true
+							}
+							cls = "explicit-across-calls"
+						case *ast.IndexExpr:
+							cls = "explicit-across-calls"
+						}
+						return true
+					})
+				}
+				res = append(res, cls)
+			}
+			// nested blocks
+			ast.Inspect(st, func(n ast.Node) bool {
+				if b, ok := n.(*ast.BlockStmt); ok && n != ast.Node(st) {
+					walk(b.List)
+					return false
+				}
+				return true
+			})
+		}
+	}
+	walk(fd.Body.List)
+	if len(res) == 0 {
+		return "none"
+	}
+	return strings.Join(res, ",")
+}
+
+// LockFunctions are the receive-path and loop functions of the broadcast package whose lock discipline is a fact of the model.
+var LockFunctions = []string{"addLtBlock", "buildPendList", "addBlockRequest", "handleBlockReqList", "addBroadcastMsg", "copyMsgList",
+	"validateBlock", "reduceDeniedCount", "addDeniedPeer", "isDeniedPeer", "recoverDeniedPeers", "getSyncStatus", "handleIsSyncEvent"}
+
 func EmitFacts(emit func(op, res string)) {
+	{
+		b := parsePkg("system/p2p/dht/protocol/broadcast")
+		for _, fn := range LockFunctions {
+			emit("fact lock broadcast."+fn, lockDiscipline(b, fn))
+		}
+	}
 	b := parsePkg("system/p2p/dht/protocol/broadcast")
 	pr := parsePkg("system/p2p/dht/protocol")
 	dl := parsePkg("system/p2p/dht/protocol/download")
